@@ -611,4 +611,28 @@ of its instrument index. -/
 def mockRun (ii : Indexed) (m : ExecMap.EMap) (mt : MockTask) (os : List Open) : MockTask :=
   os.foldl (fun mt o => (mockOpen m mt (nameOf ii o) o).1) mt
 
+/-! ### What the specification says where the driver used to be silent (oracle review C04-M2) -/
+
+/-- (init) The account snapshot the engine must be handed for the mocked exchange of `c` when the
+system starts: for every asset INDEX of that exchange, ascending, the amount configured for the
+asset's exchange name. Names have disappeared from the statement. -/
+def specSnapshot (ii : Indexed) (c : MockConfig) : List (Nat × Rat) :=
+  (ii.assets.filter fun a => a.value.exchange == c.exchange).map fun a => (a.key, specInitial c a)
+
+/-- (every order, filled or not) The state of the order snapshot that must come back for an open
+request on an instrument of the mocked exchange, given the orders accepted so far: filled / active
+when the index-level C08 specification prescribes a fill; otherwise the reason — only market orders
+are supported; else the asset INDEX the order would have spent (quote index for a buy, base index
+for a sell: `MockExchange.Spec.spends` over the engine-view configuration) holds too little. -/
+def specOutcome (ii : Indexed) (c : MockConfig) (acc : List MockExchange.Spec.Ev) (o : Open) :
+    OrderOutcome :=
+  match specObserve ii c acc o with
+  | some (_, _, tr) => if o.qty - tr.qty = 0 then .filled else .active
+  | none =>
+    if o.kind ≠ .market then .rejected
+    else
+      match MockExchange.Spec.spends (specCfg ii c).instruments (specReq o) with
+      | some a => .insufficient a
+      | none => .rejected
+
 end BarterModel.MockInstruments
